@@ -26,7 +26,7 @@ func ruleGuardedWrite(c *Ctx) {
 	c.reportHits(rule, s, "schema-compared-before-write", r, "WriteRecords is dominated by a result-checked GetMissingAndTypeCoercionColumns", "records can be queued without comparing the request's columns with the bucket's")
 	// missing == nil edge
 	var missing types.Object
-	walkAll(s.Body, func(n ast.Node) bool {
+	s.walk(func(n ast.Node) bool {
 		if as, ok := n.(*ast.AssignStmt); ok && len(as.Rhs) == 1 && len(as.Lhs) == 3 {
 			if call, ok := unparen(as.Rhs[0]).(*ast.CallExpr); ok && CalleeName(s.Info, call) == "utils/io.GetMissingAndTypeCoercionColumns" {
 				missing = identObj(s.Info, as.Lhs[0])
@@ -34,6 +34,7 @@ func ruleGuardedWrite(c *Ctx) {
 		}
 		return true
 	})
+
 	if missing == nil {
 		c.Violate(rule, s.Name, "missing-columns-consulted", c.P.Pos(s.Body.Pos()), "the list of missing columns returned by GetMissingAndTypeCoercionColumns is discarded", nil)
 	} else {
@@ -189,6 +190,7 @@ func (p *Prog) findValidators() (keyValidators, schemaValidators map[string]bool
 			}
 			return true
 		})
+
 		if strs[".."] && strs["."] && strs[""] && sepCheck {
 			keyValidators[fn.Key] = true
 		}
@@ -203,6 +205,7 @@ func (p *Prog) findValidators() (keyValidators, schemaValidators map[string]bool
 				}
 				return true
 			})
+
 			if cmp >= 2 {
 				schemaValidators[fn.Key] = true
 			}
@@ -294,7 +297,7 @@ func ruleDeletionFollowsCatalog(c *Ctx) {
 			tree = identObj(rt.Info, ix.X)
 		}
 		stores := 0
-		walkAll(rt.Body, func(n ast.Node) bool {
+		rt.walk(func(n ast.Node) bool {
 			as, ok := n.(*ast.AssignStmt)
 			if !ok {
 				return true
@@ -312,6 +315,7 @@ func ruleDeletionFollowsCatalog(c *Ctx) {
 			}
 			return true
 		})
+
 		c.Check(okAll && cnt > 0 && stores > 0, rule, rt.Name, "removal-targets-from-catalog-walk", c.P.Pos(rt.Body.Pos()),
 			fmt.Sprintf("removeDirFiles is called %d time(s), always on nodes stored from GetSubDirWithItemName (%d store(s)); a key that names no catalog node returns an error first", cnt, stores))
 	}
